@@ -2348,6 +2348,163 @@ def stage_clash(ctx, env):
                 ctx.coverage["disagreements_checked"] += 1
 
 
+# ====================================================================== polynomial layer (util/poly.py, convert_to_poly)
+def nat_term_value(t):
+    """Value of a closed nat term (numerals, +, *, truncated -, Suc); None otherwise."""
+    if t.is_number():
+        return t.dest_number()
+    if t.is_plus() or t.is_times() or t.is_minus():
+        a, b = nat_term_value(t.arg1), nat_term_value(t.arg)
+        if a is None or b is None:
+            return None
+        return a + b if t.is_plus() else a * b if t.is_times() else max(0, a - b)
+    if t.is_comb("Suc", 1):
+        a = nat_term_value(t.arg)
+        return None if a is None else a + 1
+    return None
+
+
+def poly_shape(t, ty):
+    """How `convert_to_poly` of the type reads the top of t: (kind, children...) -- written from the
+    three functions' case lists, in their order; 'atom' for everything they hand to `singleton`."""
+    if t.is_var():
+        return ("atom",)
+    if t.is_number():
+        return ("num", Fraction(t.dest_number()))
+    if t.is_plus():
+        return ("add", t.arg1, t.arg)
+    if ty == "nat":
+        if t.is_times():
+            return ("mul", t.arg1, t.arg)
+        if t.is_minus():
+            a, b = nat_term_value(t.arg1), nat_term_value(t.arg)
+            if a is not None and b is not None:
+                return ("num", Fraction(max(0, a - b)))
+        return ("atom",)
+    if t.is_minus():
+        return ("sub", t.arg1, t.arg)
+    if t.is_uminus():
+        return ("neg", t.arg)
+    if t.is_times():
+        return ("mul", t.arg1, t.arg)
+    if ty == "real":
+        if t.is_divides():
+            c = t.arg.dest_number() if t.arg.is_number() else None
+            if c:
+                return ("scale", Fraction(1) / Fraction(c), t.arg1)
+            return ("atom",)
+        if t.is_nat_power():
+            k = nat_term_value(t.arg)
+            if k is not None:
+                return ("pow", t.arg1, k)
+    return ("atom",)
+
+
+def poly_atoms(t, ty, acc):
+    sh = poly_shape(t, ty)
+    if sh[0] == "atom":
+        acc.add(t)
+    else:
+        for c in sh[1:]:
+            if hasattr(c, "is_comb"):
+                poly_atoms(c, ty, acc)
+    return acc
+
+
+def pexp_of(t, ty, ranks):
+    sh = poly_shape(t, ty)
+    k = sh[0]
+    if k == "atom":
+        return ["at", ranks[t]]
+    if k == "num":
+        return ["num", sh[1].numerator, sh[1].denominator]
+    if k == "pow":
+        return ["pow", pexp_of(sh[1], ty, ranks), sh[2]]
+    if k == "scale":
+        return ["scale", sh[1].numerator, sh[1].denominator, pexp_of(sh[2], ty, ranks)]
+    return [k] + [pexp_of(c, ty, ranks) for c in sh[1:]]
+
+
+def raw_pexp(t, ranks):
+    """The term `from_poly` builds, read structurally (atoms, numerals, +, *, atom ^ numeral)."""
+    if t in ranks:
+        return ["at", ranks[t]]
+    if t.is_number():
+        c = Fraction(t.dest_number())
+        return ["num", c.numerator, c.denominator]
+    if t.is_plus():
+        return ["add", raw_pexp(t.arg1, ranks), raw_pexp(t.arg, ranks)]
+    if t.is_times():
+        return ["mul", raw_pexp(t.arg1, ranks), raw_pexp(t.arg, ranks)]
+    if t.is_nat_power() and t.arg.is_number():
+        return ["pow", raw_pexp(t.arg1, ranks), t.arg.dest_number()]
+    raise KeyError(str(t))
+
+
+def poly_to_sexp(p, ranks):
+    out = []
+    for m in p.monomials:
+        c = Fraction(m.coeff)
+        out.append([[[ranks[b], e] for b, e in m.factors], c.numerator, c.denominator])
+    return out
+
+
+def stage_corr_poly(ctx, env):
+    """`convert_to_poly` (nat, int, real) and `from_poly` (int, real) against the Lean model of
+    util/poly.py on every expression of the cancellation generator (plus plain random ones): the
+    monomial LIST is compared -- order, factors, powers, exact coefficients."""
+    mods = {"nat": env.nat, "int": env.integer, "real": env.real}
+    n = ctx.scale(120, 2500)
+    cases, lines = [], []
+    for ty in ("nat", "int", "real"):
+        rng = ctx.rng("corr/poly/" + ty)
+        for it in range(n):
+            r = it % 4
+            if r == 3 and ty == "nat":
+                a = rng.choice(gen_nat_opaque(rng))
+            elif r == 2:
+                a = gen_arith(rng, ty, rng.randint(1, 4), ops={"nat": "+++***S", "int": "+++***-n^", "real": "+++***-n^/"}[ty],
+                              atoms=(ty != "int"))
+            else:
+                a = gen_cancel(rng, ty, rng.randint(1, 4))
+            try:
+                t = to_term(env, a, ty)
+            except Exception:  # noqa
+                continue
+            atoms = poly_atoms(t, ty, set())
+            ranks = {x: i for i, x in enumerate(env.term_ord.sorted_terms(list(atoms)))}
+            expr = pexp_of(t, ty, ranks)
+            for op in (("topoly", "frompoly") if ty != "nat" else ("topoly",)):
+                try:
+                    with time_limit(30):
+                        p = mods[ty].convert_to_poly(t)
+                        if op == "topoly":
+                            impl = sexp.dumps(poly_to_sexp(p, ranks))
+                        else:
+                            back = mods[ty].from_poly(p)
+                            impl = sexp.dumps(raw_pexp(back, ranks))
+                except Timeout:
+                    continue
+                except Exception as e:  # noqa
+                    impl = "raise:" + type(e).__name__
+                cases.append((ty, op, t, impl))
+                lines.append(sexp.dumps([op, expr]))
+    out = ctx.lean_driver(EXE, lines, timeout=1200) if lines else []
+    if out is None:
+        ctx.broken("correspondence:c10:driver", "model driver unavailable")
+        return
+    nd = 0
+    for (ty, op, t, impl), m in zip(cases, out):
+        ctx.case(("poly", ty, op, str(tj(t))), nontrivial=not t.is_var())
+        agree = impl.replace(" ", "") == m.replace(" ", "")
+        ctx.count("corr:%s:%s:%s" % (op, ty, "agree" if agree else "DISAGREE"))
+        if not agree:
+            nd += 1
+            if nd <= 3:
+                ctx.broken("correspondence:c10:%s" % op, "%s %s of %s: impl=%s model=%s" % (ty, op, t, impl[:300], m[:300]))
+                ctx.coverage["disagreements_checked"] += 1
+
+
 # ====================================================================== entry points
 def run(ctx):
     ctx.coverage["rule"] = (
@@ -2386,6 +2543,7 @@ def run(ctx):
     stage_clash(ctx, env)
     stage_corr_acnorm(ctx, env)
     stage_corr_conv(ctx, env)
+    stage_corr_poly(ctx, env)
     for s in (stage_corr_natnorm,):
         s(ctx, env)
     ctx.log("correspondence done")
